@@ -12,7 +12,7 @@ import (
 func init() {
 	register(&Prop{
 		ID:          "C20",
-		Decided:     "(1) no map update, delete, element store, in-place sort, copy-into or reflect setter is applied to a value that may alias the map passed to Emit/EmitSync/Stream.Emit/ProcessSync or a container nested in it, anywhere in the module (interprocedural, field-based taint over SSA, through the input channel, types.Row.Data, closures and interface calls); (2) the package-level variables written by module code outside init are a subset of a frozen, reasoned table (process-wide registry and caches), and the mutated fields of the process-wide singletons (ExprBridge, FunctionRegistry) are a subset of a reviewed table, so no new cross-instance or history channel exists. Also: Validate/Execute of every registered function type (298 methods) do not store into the receiver, the process-wide registry singleton; no delivered row or returned result is the caller's own map. Also: no method that writes its receiver (Init, Add, Reset, ... as decided from the implementations) is invoked on a value taken straight out of the function registry; instances get their parameters on a New()/Clone() copy (ownmap/registry-objects-not-mutated). Also: in package functions a failing run of a program obtained from the bridge's process-wide compile cache (compiled against another row's value types) is always followed by the evaluation against the row itself (expr.Eval) before an error is returned (flow/cached-program-failure-falls-back). Also: the key of every Load/Store on a text-keyed sync.Map memo in package functions is the function's own text parameter, unmodified (or a concatenation containing it): two different expressions never share an entry of a process-wide cache (flow/memo-key-is-the-input). Also: no struct type and no package-level variable of the module holds an expr-lang vm.VM (ownmap/no-retained-vm): the run-time state of one evaluation is never kept in an object shared by concurrent evaluations or by all instances of the process.",
+		Decided:     "(1) no map update, delete, element store, in-place sort, copy-into or reflect setter is applied to a value that may alias the map passed to Emit/EmitSync/Stream.Emit/ProcessSync or a container nested in it, anywhere in the module (interprocedural, field-based taint over SSA, through the input channel, types.Row.Data, closures and interface calls); (2) the package-level variables written by module code outside init are a subset of a frozen, reasoned table (process-wide registry and caches) - or a sync.Pool used only through Get/Put from which no object outlives the function that took it (an exchange of scratch objects in exclusive use) -, and the mutated fields of the process-wide singletons (ExprBridge, FunctionRegistry) are a subset of a reviewed table - or bookkeeping of the registry written only by the functions that write the registry itself -, so no new cross-instance or history channel exists. Also: Validate/Execute of every registered function type (298 methods) do not store into the receiver, the process-wide registry singleton; no delivered row or returned result is the caller's own map. Also: no method that writes its receiver (Init, Add, Reset, ... as decided from the implementations) is invoked on a value taken straight out of the function registry; instances get their parameters on a New()/Clone() copy (ownmap/registry-objects-not-mutated). Also: in package functions a failing run of a program obtained from the bridge's process-wide compile cache (compiled against another row's value types) is always followed by the evaluation against the row itself (expr.Eval) before an error is returned (flow/cached-program-failure-falls-back). Also: the key of every Load/Store on a text-keyed sync.Map memo in package functions is the function's own text parameter, unmodified (or a concatenation containing it): two different expressions never share an entry of a process-wide cache (flow/memo-key-is-the-input). Also: no struct type and no package-level variable of the module holds an expr-lang vm.VM (ownmap/no-retained-vm): the run-time state of one evaluation is never kept in an object shared by concurrent evaluations or by all instances of the process.",
 		NotDecided:  "equality of paired vs solo runs (the contents of the shared caches are value-level; the rule bounds which shared state exists, not what it holds); mutation by third-party code (expr-lang) or by user-registered functions; rows handed to sinks being altered afterwards is decided only for the caller-map taint, not for result maps.",
 		Assumptions: []string{"field-based heap abstraction: all types.Row.Data, all Stream.dataChan are merged; the global-window branch of processWindowBatch is excluded by two checked side obligations", "library code called with the caller's row (reflect reads, expr-lang VM) does not write it"},
 		Run:         runC20,
